@@ -8,8 +8,21 @@ def model(ck):
     ck.require_tlc_ok(r, "Aead.tla invariants (VariantAgreement, RoundTrip, TamperRejected, RejectReleasesNothing, ShortIsError)")
     ck.require_actions(r, ["DoEncrypt", "DoFault", "DoOpen"])
     cases = [c for c in tlc_printed_json(r["out"]) if isinstance(c, dict) and "cons" in c]
+    # cases with a roomy output buffer reach the same verdicts (VariantAgreement: the box does not depend on the buffer's length);
+    # the harness runs its "output buffer longer than needed" implementations under every case, so they are not replayed twice
+    roomy = [c for c in cases if c.get("room", 0) > 0]
+    cases = [c for c in cases if c.get("room", 0) == 0]
+    ck.cov["model_cases_with_roomy_output_buffer"] = len(roomy)
+    if not roomy:
+        raise ToolError("MCAead explored no output buffer longer than needed")
     if len(cases) < 1000:
         raise ToolError("MCAead printed only %d cases" % len(cases))
+    # negative control: with the defect of /repo 946dcd9 switched on in the model (the whole output buffer is encrypted and
+    # authenticated) VariantAgreement must fail - the model is able to see that class of defect
+    n = run_tlc("MCAead", cfg="MCAeadWholeBuffer", workers=2, timeout=600, xss="512m", coverage=False, name="MCAeadWholeBuffer")
+    if n["ok"] or not any("VariantAgreement" in v for v in n["violated"]):
+        raise ToolError("negative control: Aead.tla with WholeBuffer = TRUE does not violate VariantAgreement (%s)" % n["violated"])
+    ck.cov["negative_control"] = "Aead.tla with WholeBuffer = TRUE violates VariantAgreement (expected)"
     wd = workdir("aead")
     cf = os.path.join(wd, "cases.ndjson")
     with open(cf, "w") as f:
